@@ -1,0 +1,32 @@
+//go:build verif
+
+// Thin exports for the verification harness (/verif/harness/cmd/db -mode c17, /verif/harness/cmd/notif).
+// Add-only, compiled only with -tags verif. No logic.
+package kv
+
+import (
+	"context"
+	"log/slog"
+	"time"
+
+	time2 "github.com/oxia-db/oxia/common/time"
+)
+
+// VerifDBStore returns the KV store a DB works on (the store the notification trimmer of that DB trims).
+func VerifDBStore(d DB) KV {
+	return d.(*db).kv
+}
+
+// VerifTrimNotifications runs ONE round of notificationsTrimmer.trimNotifications on the given store with the
+// given retention and clock: the body of the ticker loop of notificationsTrimmer.run, without the goroutine
+// and without the ticker.
+func VerifTrimNotifications(store KV, retention time.Duration, clock time2.Clock) error {
+	t := &notificationsTrimmer{
+		ctx:                        context.Background(),
+		kv:                         store,
+		notificationsRetentionTime: retention,
+		clock:                      clock,
+		log:                        slog.With(slog.String("component", "db-notifications-trimmer")),
+	}
+	return t.trimNotifications()
+}
